@@ -11,7 +11,7 @@ from ..monitors import FileLog, find_token
 
 PLAN = {
     "quick": {"shards": 8, "cases": 250, "min_nontrivial": 1500, "budget_s": 300},
-    "thorough": {"shards": 16, "cases": 2500, "min_nontrivial": 25000, "budget_s": 1500},
+    "thorough": {"shards": 16, "cases": 5000, "min_nontrivial": 28000, "budget_s": 1500},
 }
 RULE = ("a case places secret fields (aes / xor / best) at the root, in sub-schemas of depth 1-3, in a config-type "
         "field, in items of lists of schemas and of config types and in ListField(SecureField); key files are named by "
